@@ -556,14 +556,16 @@ def v1_hasher(ctx):
     rdx = ReachDefs(nx, gx)
     reads = [n for n in own_nodes(nx.node) if isinstance(n, ast.Assign) and isinstance(n.value, ast.Call) and isinstance(n.value.func, ast.Attribute) and n.value.func.attr == "readinto"
              and n.value.args and isinstance(n.value.args[0], ast.Name)]
-    if len(reads) != 1:
+    if len(reads) != 1 and not (reads and len({norm(r_) for r_ in reads}) == 1):
         ctx.undecided("C01.6", nx, "expected one readinto in the v1 hasher's __next__, found %d" % len(reads))
     else:
-        cap, fresh = buffer_info(ctx, nx, gx, rdx, reads[0].value.args[0].id, C.stmt_node(ctx, nx, reads[0]))
-        if cap is None:
-            ctx.undecided("C01.6", nx, "capacity of the read buffer could not be determined", reads[0])
-        else:
-            ctx.decide("C01.6", nx, cap == PL, "read buffer is piece_length bytes", "read buffer is bytearray(%s), not piece_length" % cap, reads[0])
+        # (the same read written more than once - before and inside a `while size == 0` loop - is judged at each place)
+        for rd_ in reads:
+            cap, fresh = buffer_info(ctx, nx, gx, rdx, rd_.value.args[0].id, C.stmt_node(ctx, nx, rd_))
+            if cap is None:
+                ctx.undecided("C01.6", nx, "capacity of the read buffer could not be determined", rd_)
+            else:
+                ctx.decide("C01.6", nx, cap == PL, "read buffer is piece_length bytes", "read buffer is bytearray(%s), not piece_length" % cap, rd_)
     g = C.cfg_of(nx)
     SZ = end_of_iteration(ctx, "C01.6", nx)
     # partial hand-over: called for size < piece_length with piece[:size]
